@@ -66,12 +66,13 @@ func RacePassMain(reps int) int {
 	return 0
 }
 
-var raceFrameRE = regexp.MustCompile(`^\s+(github\.com/apache/yunikorn-core/[^\s(]+)`)
+var raceFrameRE = regexp.MustCompile(`^\s+(github\.com/apache/yunikorn-core/\S+?)\(\)\s*$`)
 
 type raceReport struct {
 	FP     string   `json:"fingerprint"`
 	Access []string `json:"accesses"`
 	Count  int      `json:"count"`
+	Raw    string   `json:"firstReport,omitempty"`
 }
 
 // parseRaces reduces the detector's reports to (first repository frame of each of the two accesses), sorted.
@@ -106,7 +107,11 @@ func parseRaces(text string) []raceReport {
 		sort.Strings(accesses)
 		fp := strings.Join(accesses, " vs ")
 		if byFP[fp] == nil {
-			byFP[fp] = &raceReport{FP: fp, Access: accesses}
+			raw := block
+			if len(raw) > 3000 {
+				raw = raw[:3000]
+			}
+			byFP[fp] = &raceReport{FP: fp, Access: accesses, Raw: raw}
 		}
 		byFP[fp].Count++
 	}
